@@ -1,5 +1,6 @@
 import AptMirror.Lemmas.Control
 import AptMirror.Lemmas.Frame
+import AptMirror.Lemmas.Mirror
 /-!
 # C02 — a failed run exits non-zero and leaves the repository's published state intact
 
@@ -198,5 +199,33 @@ example : mirrorControl planOK = ([.releaseRound 0, .indices, .skelClean, .pool,
 example : mirrorControl planBad = ([.releaseRound 0, .indices, .skelClean, .pool], false) := by decide
 example : mirrorControl planRel = ([.releaseRound 0, .releaseRound 1, .releaseRound 2], false) := by decide
 example : runControl [planOK, planBad] = 1 ∧ runControl [planOK, planOK] = 0 ∧ runControl [] = 2 := by decide
+
+
+/-! ## a failed run over the repository's mirror directory (L2) -/
+namespace Mirror
+
+/-- the operations of a run that fails in (or before) its pool stage: whatever part of the pool stage it got through -
+    `mirrorControl` schedules neither publish nor clean after an error (`C02_failed_no_publish`) -/
+def failedRunOps (t : Tree) (need : Need) (k : Nat) : List Op := (poolOps t need.pool).take k
+
+/-- **C02 (a failed run leaves the published metadata alone and deletes nothing).** However far the pool stage got before
+    the repository failed, the live metadata is exactly what it was, every file name that existed still exists, and every
+    file that was not a queue entry lacking its declared size is untouched. -/
+theorem C02_failed_run_keeps_tree (t : Tree) (need : Need) (hok : NeedOK need) (k : Nat) :
+    (exec (failedRunOps t need k) t).dists = t.dists ∧
+    (∀ p, t.pool p ≠ none → (exec (failedRunOps t need k) t).pool p ≠ none) ∧
+    (∀ p, (∀ n ∈ need.pool, n.path = p → present t n = true) → (exec (failedRunOps t need k) t).pool p = t.pool p) := by
+  have hops : ∀ op ∈ failedRunOps t need k,
+      ∃ q, (∃ n ∈ need.pool, n.path = q ∧ present t n = false) ∧ op.writes q := by
+    intro op hop
+    obtain ⟨n, hn, ho, hp⟩ := poolOps_absent need.pool t hok.distinct hok.sums op (List.mem_of_mem_take hop)
+    exact ⟨n.path, ⟨n, hn, rfl, hp⟩, writeOps_writes n op ho⟩
+  obtain ⟨a, b, c⟩ := exec_writes_only _ (fun q => ∃ n ∈ need.pool, n.path = q ∧ present t n = false) t hops
+  refine ⟨a, c, fun p hp => b p ?_⟩
+  rintro ⟨n, hn, hpath, hpr⟩
+  rw [hp n hn hpath] at hpr
+  cases hpr
+
+end Mirror
 
 end AptMirror
